@@ -250,7 +250,7 @@ class Vocab:
             w = r.choice(WORDS)
             return w, [["Q", w]]
         if kind == "binding":
-            w = "[" + r.choice(["name", "ATTR_1", "size"]) + "]"
+            w = "[" + r.choice(["name", "ATTR_1", "size", "name-en", "gml:name", "pop-2020", "ÀÉ"]) + "]"
             return w, [["B", w]]
         if kind == "expr":
             w = r.choice(["([pop] > 100)", '("[name]" = "x")', "([a] + 2 * [b])", "([code] = '1)')", "([street] = 'Main St (north')",
